@@ -327,5 +327,36 @@ theorem hrun_dev (emp : Key) (ops : List HOp) : ∀ h : Hub, (hrun emp h ops).de
     rw [this, ih]
     cases op <;> rfl
 
+/-! ### header text and decoder -/
+
+/-- On a valid text the decoder is applied to group 1 of the bearer expression. -/
+theorem matchBearer_tokenPart {hdr : List Nat} (h : TextValid hdr) : matchBearer hdr = some (tokenPart hdr) := by
+  obtain ⟨tok, _, _, _, hm, _⟩ := h
+  simp [tokenPart, hm]
+
+/-- A text that does not match the bearer expression is refused before anything is decoded. -/
+theorem prepare_noMatch (cfg : Cfg) (now : Int) (origin : String) (hs : Hashes) (hdr : List Nat) (dec : Option Tok)
+    (hne : hdr ≠ []) (hm : matchBearer hdr = none) : prepare cfg now origin hs hdr dec = none := by
+  unfold prepare parseAuthHeader
+  simp [hne, hm]
+
+/-! ### reply bodies -/
+
+theorem pwText_values (emp k : Key) : pwText emp k = "set" ∨ pwText emp k = "" := by
+  unfold pwText
+  split <;> simp
+
+theorem pwText_eq_empty_iff (emp k : Key) : pwText emp k = "" ↔ k = emp := by
+  unfold pwText
+  split <;> simp_all
+
+/-- Every password-related text of a `/device` reply body is one of the two literals. -/
+theorem deviceReply_values (emp : Key) (d : Dev) (req : DevReq) :
+    ∀ f ∈ deviceReply emp d req, f.2 = "set" ∨ f.2 = "" := by
+  cases req <;> simp [deviceReply, deviceDoc, pwText_values]
+
+/-- A text of 64 characters (a SHA-256 hex digest) is neither of the two literals. -/
+theorem length64_not_literal {s : String} (h : s.length = 64) : s ≠ "set" ∧ s ≠ "" := by
+  constructor <;> (intro he; subst he; revert h; decide)
 
 end QtVerif.Auth
